@@ -17,8 +17,11 @@ instance : Ops Float where
   sincos := fun x => (Float.sin x, Float.cos x)
   atan2 := Float.atan2
   pi := goPi
-  center := ellipseToCenterF
-  angleBetween := angleBetweenF
+  fmod := fmodF
+  acos := Float.acos
+  abs := Float.abs
+  eps := GenF.Epsilon
+  le := fun a b => a ≤ b
 
 def hexs (fs : List Float) : String := String.intercalate " " (fs.map hexOfFloat)
 
@@ -39,6 +42,34 @@ def handle : List String → Option String
     let c ← floatOfHex? c
     let r := solveQuadratic a b c
     pure (optHex r.1 ++ " " ++ optHex r.2)
+  | "V" :: tolC :: tolT :: rest => do
+    let tolC ← floatOfHex? tolC
+    let tolT ← floatOfHex? tolT
+    let fs ← (rest.take 12).mapM floatOfHex?
+    match fs with
+    | [s0, s1, s2, s3, b0, b1, b2, b3, f0, f1, f2, f3] =>
+      let ax (n : Nat) := if n == 0 then "x" else "y"
+      pure (match verdict tolC tolT ⟨s0, s1, s2, s3⟩ ⟨b0, b1, b2, b3⟩ ⟨f0, f1, f2, f3⟩ with
+        | .ok => "ok"
+        | .notContaining n => "FAIL bounds-not-containing " ++ ax n
+        | .notTight n => "FAIL bounds-not-tight " ++ ax n
+        | .fastNotContaining n => "FAIL fastbounds-not-containing " ++ ax n)
+    | _ => none
+  | "VE" :: tol :: rest => do
+    let tol ← floatOfHex? tol
+    let fs ← (rest.take 8).mapM floatOfHex?
+    match fs with
+    | [a0, a1, a2, a3, b0, b1, b2, b3] =>
+      pure (if rectNear tol ⟨a0, a1, a2, a3⟩ ⟨b0, b1, b2, b3⟩ then "ok" else "FAIL differs")
+    | _ => none
+  | ["AB", th, lo, up] => do
+    let th ← floatOfHex? th
+    let lo ← floatOfHex? lo
+    let up ← floatOfHex? up
+    pure (if angleBetween th lo up then "1" else "0")
+  | ["AN", th] => do
+    let th ← floatOfHex? th
+    pure (hexOfFloat (angleNorm th))
   | ["EC", x1, y1, rx, ry, phi, large, sweep, x2, y2] => do
     let x1 ← floatOfHex? x1
     let y1 ← floatOfHex? y1
@@ -47,7 +78,7 @@ def handle : List String → Option String
     let phi ← floatOfHex? phi
     let x2 ← floatOfHex? x2
     let y2 ← floatOfHex? y2
-    let r := ellipseToCenterF x1 y1 rx ry phi (large == "1") (sweep == "1") x2 y2
+    let r := ellipseToCenter x1 y1 rx ry phi (large == "1") (sweep == "1") x2 y2
     pure (hexs [r.1, r.2.1, r.2.2.1, r.2.2.2])
   | ["ECC", x1, y1, rx, ry, phi, large, sweep, x2, y2] => do
     let x1 ← floatOfHex? x1
@@ -57,7 +88,7 @@ def handle : List String → Option String
     let phi ← floatOfHex? phi
     let x2 ← floatOfHex? x2
     let y2 ← floatOfHex? y2
-    let r := ellipseToCenterF x1 y1 rx ry phi (large == "1") (sweep == "1") x2 y2
+    let r := ellipseToCenter x1 y1 rx ry phi (large == "1") (sweep == "1") x2 y2
     pure (hexs [r.1, r.2.1])
   | _ => none
 
